@@ -1,6 +1,7 @@
 import DoviModel.Model.Generate
 import DoviModel.Proofs.EditGenProof
 import DoviModel.Proofs.GenerateEntryProof
+import DoviModel.Proofs.GenSourcesProof
 import DoviModel.Gen.SourceRules
 /-! # C10 — generator output matches its config -/
 namespace Dovi.C10
@@ -639,5 +640,650 @@ theorem source_l6_levels_agree (b : Block) :
   unfold Src.sourceMetaFromL6 sourceMetaFromL6
   simp only [Prod.mk.injEq]
   constructor <;> (repeat' split) <;> simp_all
+
+/-! # The HDR10+ and madVR source paths (`Model/GenSources.lean`; helper lemmas: `Proofs/GenSourcesProof.lean`)
+
+Vocabulary (`Dovi.GenSourcesProof` unless said otherwise):
+* `copyMetadataFromShot self other excl`, `mergeShot cfgShots k s`, `l1Block cm max avg`, `madvrConfig`, `hdr10plusConfig`,
+  `generateFrom`, `generateMadvr`, `generateHdr10plus`, `MadvrScene.length`, `fillL6` — the model (`Dovi.Gen`).
+* `cfgBlocks cfgShots k` — the blocks of the config's shot `k` that are not L1 (`[]` when there is no shot `k`);
+  `cfgEditBlocks cfgShots k i` — the not-L1 blocks of the FIRST frame edit of that shot with offset `i`.
+* `ScenesDefined src` — no scene has an end word of 0 or an end before its start; `ScenesInRange src` — every scene ends
+  below `frameCount`; `madvrResult c src custom` — the config after `generate_metadata_from_madvr`.
+* `customL1 cm on targets s i` — `some` L1 of frame `i` of scene `s` (target of frame `start + i`, scene average) when
+  custom targets are on and `i` is inside the scene, else `none`.
+* `HdrFits src f0`, `hdrFirstFrames src f0`, `hdrResult c src f0` — the HDR10+ counterparts.
+The PQ codes (`maxCode`, `avgCode`, `targets`, the HDR10+ per-frame pairs) are inputs: see the named parameter `PqCode`
+in `Model/GenSources.lean`. -/
+open Dovi.GenSourcesProof
+
+/-- **`copy_metadata_from_shot`, exactly**: start and duration stay; the kept blocks of `other` are appended to the
+blocks; at every offset the applicable edit blocks are the shot's own (first edit at that offset) followed by the kept
+blocks of `other`'s first edit at that offset — an existing edit is extended, never replaced, and an offset without an
+own edit gets `other`'s edit reduced to its kept blocks. With `excl = some [1]` "kept" means "not L1". -/
+theorem copy_metadata_spec (self other : Shot) (excl : Option (List Nat)) :
+    (copyMetadataFromShot self other excl).start = self.start ∧
+    (copyMetadataFromShot self other excl).duration = self.duration ∧
+    (copyMetadataFromShot self other excl).blocks = self.blocks ++ other.blocks.filter (keepBlock excl) ∧
+    ∀ i, editBlocks (copyMetadataFromShot self other excl) i =
+      editBlocks self i ++ (editBlocks other i).filter (keepBlock excl) :=
+  ⟨rfl, rfl, rfl, editBlocks_copy self other excl⟩
+
+/-- a frame of a shot that starts with one L1 block `b1` followed by not-L1 blocks `B`, whose applicable edit at offset
+`i` is an optional L1 block `e` followed by not-L1 blocks `E`: the frame's only L1 block is `e` if present, else `b1`;
+every other level follows the three-way precedence `E`, then `B`, then the base DM data -/
+theorem gen_frame_with_source_l1 (c : Config) (l : List Rpu) (h : generateList c = .ok l)
+    (k : Nat) (hk : k < c.shots.length) (i : Nat) (hi : i < c.shots[k].duration)
+    (b1 : Block) (B : List Block) (hb : c.shots[k].blocks = b1 :: B) (hb1 : b1.level = 1) (hB : ∀ y ∈ B, y.level ≠ 1)
+    (e : Option Block) (E : List Block) (he : editBlocks c.shots[k] i = e.toList ++ E)
+    (he1 : ∀ b, e = some b → b.level = 1) (hE : ∀ y ∈ E, y.level ≠ 1) :
+    ∃ base dm0 r d, baseRpu c = .ok base ∧ dmFromConfig c = .ok dm0 ∧ Uniq dm0 ∧
+      l[shotStart c k + i]? = some r ∧ r = { base with vdr_dm_data := some d } ∧ Uniq d ∧
+      shell d = { shell dm0 with scene_refresh_flag := cutFlag c i } ∧
+      d.levelBlocks 1 = [e.getD b1] ∧
+      ∀ x : Block, x.level ≠ 1 → (x ∈ d.levelBlocks x.level ↔
+        (holds dm0 x.level ∧ E.reverse.find? (sameKey x) = some x) ∨
+        (E.all (fun b => !sameKey b x) = true ∧ holds dm0 x.level ∧ B.reverse.find? (sameKey x) = some x) ∨
+        (E.all (fun b => !sameKey b x) = true ∧ B.all (fun b => !sameKey b x) = true ∧
+          x ∈ dm0.levelBlocks x.level)) := by
+  obtain ⟨base, dm0, h1, h2, _, hu0, hf⟩ := gen_precedence c l h
+  obtain ⟨r, d, hr, hrd, hud, hsh, hmem⟩ := hf k hk i hi
+  have hholds1 : holds dm0 1 := ((gen_base_blocks c dm0 h2).2.1 1).2 (.inl (by decide))
+  refine ⟨base, dm0, r, d, h1, h2, hu0, hr, hrd, hud, hsh, ?_, ?_⟩
+  · -- the L1 block
+    have hL : (e.getD b1).level = 1 := by
+      cases e with
+      | none => exact hb1
+      | some b => exact he1 b rfl
+    have hin : e.getD b1 ∈ d.levelBlocks (e.getD b1).level := by
+      rw [hmem]
+      cases e with
+      | none =>
+        right; left
+        simp only [Option.toList_none, List.nil_append] at he
+        simp only [Option.getD_none]
+        rw [he, hb]
+        exact ⟨all_not_l1 b1 hb1 E hE, by rw [hb1]; exact hholds1, find_last_l1 b1 hb1 B hB⟩
+      | some b =>
+        left
+        simp only [Option.toList_some, List.singleton_append] at he
+        simp only [Option.getD_some]
+        rw [he]
+        exact ⟨by rw [he1 b rfl]; exact hholds1, find_last_l1 b (he1 b rfl) E hE⟩
+    rw [hL] at hin
+    have hlen := (unkeyed_single d hud 1 (by decide)).1
+    cases hl1 : d.levelBlocks 1 with
+    | nil => rw [hl1] at hin; cases hin
+    | cons a t =>
+      cases t with
+      | nil => rw [hl1] at hin; simp only [List.mem_singleton] at hin; rw [hin]
+      | cons a2 t2 => rw [hl1] at hlen; simp at hlen
+  · intro x hx
+    rw [hmem, hb, he]
+    have hBf : (b1 :: B).reverse.find? (sameKey x) = B.reverse.find? (sameKey x) := find_skip_l1 x hx b1 hb1 B
+    have hBa : (b1 :: B).all (fun y => !sameKey y x) = B.all (fun y => !sameKey y x) := all_skip_l1 x hx b1 hb1 B
+    cases e with
+    | none =>
+      simp only [Option.toList_none, List.nil_append]
+      rw [hBf, hBa]
+    | some b =>
+      simp only [Option.toList_some, List.singleton_append]
+      rw [find_skip_l1 x hx b (he1 b rfl) E, all_skip_l1 x hx b (he1 b rfl) E, hBf, hBa]
+
+/-- **a frame of a source shot after the rest of `execute`** (`normalize`: default shot, overrides, `fixup_l1`), for any
+config `c'` whose shot `k` is `mergeShot cs k s` with `s` carrying one clamped L1 block `b1` and at most one clamped L1
+block `e i` per offset: at index (durations of the shots before `k`) + `i` of the output the only L1 block is `e i` if
+present, else `b1` — nothing of the config's shot `cs[k]` can change it — and every other level follows the precedence:
+not-L1 blocks of the config shot's first edit at `i`, then its not-L1 blocks, then the base DM data (defaults / statics) -/
+theorem source_frame (c' : Config) (po : Option Profile) (lo : Option Bool) (l : List Rpu)
+    (hl : generateList (normalize c' po lo) = .ok l)
+    (cs : List Shot) (k : Nat) (hk : k < c'.shots.length) (s : Shot) (hs : c'.shots[k] = mergeShot cs k s)
+    (b1 : Block) (hb : s.blocks = [b1]) (hb1 : b1.level = 1) (hc1 : clampL1 (clampMode c') b1 = b1)
+    (e : Nat → Option Block) (he : ∀ i, editBlocks s i = (e i).toList)
+    (he1 : ∀ i b, e i = some b → b.level = 1 ∧ clampL1 (clampMode c') b = b)
+    (i : Nat) (hi : i < s.duration) :
+    ∃ base dm0 r d, baseRpu (normalize c' po lo) = .ok base ∧ dmFromConfig (normalize c' po lo) = .ok dm0 ∧ Uniq dm0 ∧
+      l[((c'.shots.take k).map (·.duration)).sum + i]? = some r ∧ r = { base with vdr_dm_data := some d } ∧ Uniq d ∧
+      shell d = { shell dm0 with scene_refresh_flag := if i = 0 ∨ lo.getD c'.longPlay = true then 1 else 0 } ∧
+      d.levelBlocks 1 = [(e i).getD b1] ∧
+      ∀ x : Block, x.level ≠ 1 → (x ∈ d.levelBlocks x.level ↔
+        (holds dm0 x.level ∧ (cfgEditBlocks cs k i).reverse.find? (sameKey x) = some x) ∨
+        ((cfgEditBlocks cs k i).all (fun b => !sameKey b x) = true ∧ holds dm0 x.level ∧
+          (cfgBlocks cs k).reverse.find? (sameKey x) = some x) ∨
+        ((cfgEditBlocks cs k i).all (fun b => !sameKey b x) = true ∧
+          (cfgBlocks cs k).all (fun b => !sameKey b x) = true ∧ x ∈ dm0.levelBlocks x.level)) := by
+  have hne : c'.shots.isEmpty = false := by
+    cases hsh : c'.shots with
+    | nil => rw [hsh] at hk; simp at hk
+    | cons a t => rfl
+  have hbase : baseShots c' = c'.shots := by unfold baseShots; rw [hne]; rfl
+  obtain ⟨_, _, f3, _, _, _, _, _, _, _, f11⟩ := normalize_fields c' po lo
+  rw [hbase] at f11
+  have hk' : k < (normalize c' po lo).shots.length := by rw [f11, List.length_map]; exact hk
+  have hshot : (normalize c' po lo).shots[k] = clampShot (clampMode c') (mergeShot cs k s) := by
+    simp only [f11, List.getElem_map, hs]
+  have hdur : (normalize c' po lo).shots[k].duration = s.duration := by
+    rw [hshot]; exact mergeShot_duration cs k s
+  have hblocks : (normalize c' po lo).shots[k].blocks = b1 :: cfgBlocks cs k := by
+    rw [hshot]
+    show (mergeShot cs k s).blocks.map (clampL1 (clampMode c')) = _
+    rw [mergeShot_blocks, hb, List.map_append, cfgBlocks_clamp]
+    simp [hc1]
+  have hedit : editBlocks (normalize c' po lo).shots[k] i = (e i).toList ++ cfgEditBlocks cs k i := by
+    rw [hshot, editBlocks_clampShot, mergeShot_editBlocks, he, List.map_append, cfgEditBlocks_clamp]
+    cases hei : e i with
+    | none => rfl
+    | some b => simp [(he1 i b hei).2]
+  have hstart : shotStart (normalize c' po lo) k = ((c'.shots.take k).map (·.duration)).sum := by
+    unfold shotStart
+    rw [f11, ← List.map_take, List.map_map]
+    rfl
+  obtain ⟨base, dm0, r, d, g1, g2, g3, g4, g5, g6, g7, g8, g9⟩ :=
+    gen_frame_with_source_l1 (normalize c' po lo) l hl k hk' i (by rw [hdur]; exact hi)
+      b1 (cfgBlocks cs k) hblocks hb1 (cfgBlocks_level cs k)
+      (e i) (cfgEditBlocks cs k i) hedit (fun b hb => (he1 i b hb).1) (cfgEditBlocks_level cs k i)
+  rw [hstart] at g4
+  have hcut : cutFlag (normalize c' po lo) i = if i = 0 ∨ lo.getD c'.longPlay = true then 1 else 0 := by
+    unfold cutFlag; rw [f3]
+  rw [hcut] at g7
+  exact ⟨base, dm0, r, d, g1, g2, g3, g4, g5, g6, g7, g8, g9⟩
+
+/-! ## madVR (`generate_metadata_from_madvr`) -/
+
+/-- **the three outcomes of the madVR step, exactly**: a panic iff some scene's stored end word is 0 or its end lies
+before its start (`u32` subtraction in `parse_scenes`, dev profile); otherwise an error iff some scene ends at or after
+`frame_count` ("scene end higher than frame count"); otherwise the config of `madvrResult` -/
+theorem madvr_config_outcome (c : Config) (src : MadvrSource) (custom : Bool) :
+    (madvrConfig c src custom = .panic ↔ ¬ ScenesDefined src) ∧
+    (madvrConfig c src custom = .error ↔ ScenesDefined src ∧ ¬ ScenesInRange src) ∧
+    (madvrConfig c src custom = .ok (madvrResult c src custom) ↔ ScenesDefined src ∧ ScenesInRange src) := by
+  rcases madvrConfig_cases c src custom with ⟨h1, h2⟩ | ⟨h1, h2, h3⟩ | ⟨h1, h2, h3⟩ <;> rw [h1]
+  · exact ⟨⟨fun _ => h2, fun _ => rfl⟩, ⟨fun h => (by cases h), fun h => absurd h.1 h2⟩,
+      ⟨fun h => (by cases h), fun h => absurd h.1 h2⟩⟩
+  · exact ⟨⟨fun h => (by cases h), fun h => absurd h2 h⟩, ⟨fun _ => ⟨h2, h3⟩, fun _ => rfl⟩,
+      ⟨fun h => (by cases h), fun h => absurd h.2 h3⟩⟩
+  · exact ⟨⟨fun h => (by cases h), fun h => absurd h2 h⟩, ⟨fun h => (by cases h), fun h => absurd h3 h.2⟩,
+      ⟨fun _ => ⟨h2, h3⟩, fun _ => rfl⟩⟩
+
+/-- index of the first frame of scene `k` in the output: the lengths of the scenes before it -/
+def sceneStart (src : MadvrSource) (k : Nat) : Nat := ((src.scenes.take k).map (·.length)).sum
+
+/-- **C10 (a) for madVR — frame count**: when `generate --madvr-file` succeeds it wrote exactly `frame_count` RPUs;
+no scene's arithmetic wrapped, every scene ends inside the frames, and (when there is a scene at all) the scene lengths
+add up to `frame_count` -/
+theorem madvr_frame_count (c : Config) (src : MadvrSource) (custom : Bool) (po : Option Profile) (lo : Option Bool)
+    (out : List Bytes) (h : generateMadvr c src custom po lo = .ok out) :
+    out.length = src.frameCount ∧ ScenesDefined src ∧ ScenesInRange src ∧
+    (src.scenes ≠ [] → (src.scenes.map (·.length)).sum = src.frameCount) := by
+  unfold generateMadvr at h
+  obtain ⟨c', hc, hg⟩ := (bind_ok_iff _ _ _).1 h
+  obtain ⟨rfl, hd, hr⟩ := madvr_ok c src custom c' hc
+  rw [madvr_generateFrom c src custom po lo hr] at hg
+  obtain ⟨g1, g2, g3⟩ := generate_length _ po lo out hg
+  have hlen : (normalize (madvrResult c src custom) po lo).length = src.frameCount := by
+    rw [(normalize_fields _ po lo).2.2.2.1]
+    split
+    · rename_i hh
+      -- `length = 0` with shots cannot happen
+      have h0 : src.frameCount = 0 := hh.1
+      cases hs : src.scenes with
+      | nil =>
+        have : (madvrResult c src custom).shots.isEmpty = true := by
+          show (madvrShots c src custom).isEmpty = true
+          simp [madvrShots, hs]
+        rw [this] at hh; cases hh.2
+      | cons s t =>
+        have := hr s (by rw [hs]; exact List.mem_cons_self)
+        omega
+    · rfl
+  refine ⟨g1.trans hlen, hd, hr, ?_⟩
+  intro hne
+  rw [← hlen, g2, g3, madvr_shots_nonempty c src custom hne, durSum_eq_sum, madvrShots_durations]
+
+/-- **the link to the frame theorems**: what `generate --madvr-file` writes is the writer's output on the frames of
+`generate_rpu_list (normalize c')`, `c'` the config of the madVR step — the list `l` that `madvr_frame`,
+`madvr_scene_cuts`, `madvr_beyond_config_shots` (and all `gen_*` theorems above) speak about -/
+theorem madvr_output (c : Config) (src : MadvrSource) (custom : Bool) (po : Option Profile) (lo : Option Bool)
+    (out : List Bytes) (h : generateMadvr c src custom po lo = .ok out) :
+    ∃ c' l, madvrConfig c src custom = .ok c' ∧ generateList (normalize c' po lo) = .ok l ∧ writeAll l = .ok out ∧
+      out.length = l.length := by
+  unfold generateMadvr at h
+  obtain ⟨c', hc, hg⟩ := (bind_ok_iff _ _ _).1 h
+  obtain ⟨rfl, _, hr⟩ := madvr_ok c src custom c' hc
+  rw [madvr_generateFrom c src custom po lo hr] at hg
+  obtain ⟨_, l, h1, h2⟩ := (generate_ok_iff _ po lo out).1 hg
+  exact ⟨_, l, hc, h1, h2, writeAll_length l out h2⟩
+
+/-- **… and exactly when it does not**: a scene whose arithmetic wraps makes the command panic (the real tool aborts
+with "attempt to subtract with overflow") -/
+theorem madvr_undefined_panics (c : Config) (src : MadvrSource) (custom : Bool) (po : Option Profile) (lo : Option Bool)
+    (h : ¬ ScenesDefined src) : generateMadvr c src custom po lo = .panic := by
+  unfold generateMadvr
+  rw [(madvr_config_outcome c src custom).1.2 h]; rfl
+
+/-- a scene that ends at or after `frame_count` is an error -/
+theorem madvr_out_of_range_errors (c : Config) (src : MadvrSource) (custom : Bool) (po : Option Profile)
+    (lo : Option Bool) (hd : ScenesDefined src) (h : ¬ ScenesInRange src) :
+    generateMadvr c src custom po lo = .error := by
+  unfold generateMadvr
+  rw [(madvr_config_outcome c src custom).2.1.2 ⟨hd, h⟩]; rfl
+
+/-- scenes that lie inside the frames but do not tile them (their lengths do not add up to `frame_count`: a gap, an
+overlap, a duplicate) are an error ("Config length is not the same as shots total duration") -/
+theorem madvr_not_tiling_errors (c : Config) (src : MadvrSource) (custom : Bool) (po : Option Profile) (lo : Option Bool)
+    (hd : ScenesDefined src) (hr : ScenesInRange src) (hne : src.scenes ≠ [])
+    (hsum : (src.scenes.map (·.length)).sum ≠ src.frameCount) :
+    generateMadvr c src custom po lo = .error := by
+  cases hg : generateMadvr c src custom po lo with
+  | error => rfl
+  | ok out => exact absurd ((madvr_frame_count c src custom po lo out hg).2.2.2 hne) hsum
+  | panic =>
+    unfold generateMadvr at hg
+    rw [(madvr_config_outcome c src custom).2.2.2 ⟨hd, hr⟩] at hg
+    simp only [Res.bind] at hg
+    rw [madvr_generateFrom c src custom po lo hr] at hg
+    exact absurd hg (generate_no_panic _ po lo)
+
+/-- with well-defined scenes the command never panics -/
+theorem madvr_no_panic (c : Config) (src : MadvrSource) (custom : Bool) (po : Option Profile) (lo : Option Bool)
+    (hd : ScenesDefined src) : generateMadvr c src custom po lo ≠ .panic := by
+  intro hg
+  unfold generateMadvr at hg
+  rcases madvrConfig_cases c src custom with ⟨_, h2⟩ | ⟨h1, _, _⟩ | ⟨h1, _, hr⟩
+  · exact h2 hd
+  · rw [h1] at hg; cases hg
+  · rw [h1] at hg
+    simp only [Res.bind] at hg
+    rw [madvr_generateFrom c src custom po lo hr] at hg
+    exact generate_no_panic _ po lo hg
+
+/-- **C10 (b), (c), (e) for madVR — one frame**: frame `i` of scene `k` sits at index `sceneStart src k + i`; it is the
+base RPU of the normalized config with DM data `d` whose
+* scene-refresh flag is 1 iff `i = 0` (or long-play mode, from `--long-play-mode` else the config),
+* only L1 block is the clamped (0, scene peak code, scene average code) — with `--use-custom-targets` on a flags-3 file
+  the clamped (0, target code of frame `start + i`, scene average code) — whatever L1 blocks the config's shot `k`, its
+  frame edits or the defaults carry,
+* blocks of every other level follow the precedence: not-L1 blocks of the config shot `k`'s first frame edit at offset
+  `i`, then its not-L1 blocks, then the base DM data (defaults, statics). -/
+theorem madvr_frame (c : Config) (src : MadvrSource) (custom : Bool) (po : Option Profile) (lo : Option Bool)
+    (c' : Config) (hc : madvrConfig c src custom = .ok c') (l : List Rpu)
+    (hl : generateList (normalize c' po lo) = .ok l)
+    (k : Nat) (hk : k < src.scenes.length) (i : Nat) (hi : i < src.scenes[k].length) :
+    ∃ base dm0 r d, baseRpu (normalize c' po lo) = .ok base ∧ dmFromConfig (normalize c' po lo) = .ok dm0 ∧ Uniq dm0 ∧
+      l[sceneStart src k + i]? = some r ∧ r = { base with vdr_dm_data := some d } ∧ Uniq d ∧
+      d.scene_refresh_flag = (if i = 0 ∨ lo.getD c.longPlay = true then 1 else 0) ∧
+      d.levelBlocks 1 =
+        [if custom = true ∧ src.flags = 3
+         then l1Block (clampMode c) (src.targets.getD (src.scenes[k].start + i) 0) src.scenes[k].avgCode
+         else l1Block (clampMode c) src.scenes[k].maxCode src.scenes[k].avgCode] ∧
+      ∀ x : Block, x.level ≠ 1 → (x ∈ d.levelBlocks x.level ↔
+        (holds dm0 x.level ∧ (cfgEditBlocks c.shots k i).reverse.find? (sameKey x) = some x) ∨
+        ((cfgEditBlocks c.shots k i).all (fun b => !sameKey b x) = true ∧ holds dm0 x.level ∧
+          (cfgBlocks c.shots k).reverse.find? (sameKey x) = some x) ∨
+        ((cfgEditBlocks c.shots k i).all (fun b => !sameKey b x) = true ∧
+          (cfgBlocks c.shots k).all (fun b => !sameKey b x) = true ∧ x ∈ dm0.levelBlocks x.level)) := by
+  obtain ⟨rfl, _, _⟩ := madvr_ok c src custom c' hc
+  have hk' : k < (madvrResult c src custom).shots.length := by
+    show k < (madvrShots c src custom).length
+    rw [madvrShots_length]; exact hk
+  have hs : (madvrResult c src custom).shots[k] = mergeShot c.shots k
+      (madvrSceneShot (clampMode c) (custom && src.flags == 3) src.targets src.scenes[k]) :=
+    madvrShots_getElem c src custom k hk
+  obtain ⟨base, dm0, r, d, g1, g2, g3, g4, g5, g6, g7, g8, g9⟩ :=
+    source_frame (madvrResult c src custom) po lo l hl c.shots k hk' _ hs
+      (l1Block (clampMode c) src.scenes[k].maxCode src.scenes[k].avgCode) rfl (l1Block_level _ _ _) (clamp_l1Block _ _ _)
+      (customL1 (clampMode c) (custom && src.flags == 3) src.targets src.scenes[k])
+      (editBlocks_sceneShot _ _ _ _)
+      (by
+        intro j b hb
+        unfold customL1 at hb
+        split at hb
+        · cases hb; exact ⟨l1Block_level _ _ _, clamp_l1Block _ _ _⟩
+        · cases hb)
+      i hi
+  have hstart : (((madvrResult c src custom).shots.take k).map (·.duration)).sum = sceneStart src k := by
+    unfold sceneStart
+    rw [List.map_take, List.map_take]
+    show (((madvrShots c src custom).map (·.duration)).take k).sum = _
+    rw [madvrShots_durations]
+  rw [hstart] at g4
+  refine ⟨base, dm0, r, d, g1, g2, g3, g4, g5, g6, (shell_fields g7).2.2.2.2.1, ?_, g9⟩
+  rw [g8]
+  unfold customL1
+  by_cases hcu : custom = true ∧ src.flags = 3
+  · simp [hi, hcu]
+  · have : (custom && src.flags == 3) = false := by
+      cases custom <;> simp at hcu ⊢
+      exact hcu
+    simp [this, hcu]
+
+/-- **C10 (c) for madVR — scenes beyond the config's shots are untouched**: when the config has no shot `k`, the frames
+of scene `k` carry the source L1 and otherwise exactly the blocks of the base DM data -/
+theorem madvr_beyond_config_shots (c : Config) (src : MadvrSource) (custom : Bool) (po : Option Profile)
+    (lo : Option Bool) (c' : Config) (hc : madvrConfig c src custom = .ok c') (l : List Rpu)
+    (hl : generateList (normalize c' po lo) = .ok l)
+    (k : Nat) (hk : k < src.scenes.length) (hcs : c.shots.length ≤ k) (i : Nat) (hi : i < src.scenes[k].length) :
+    ∃ dm0 r d, dmFromConfig (normalize c' po lo) = .ok dm0 ∧ l[sceneStart src k + i]? = some r ∧
+      r.vdr_dm_data = some d ∧ ∀ x : Block, x.level ≠ 1 → (x ∈ d.levelBlocks x.level ↔ x ∈ dm0.levelBlocks x.level) := by
+  obtain ⟨base, dm0, r, d, _, g2, _, g4, g5, _, _, _, g9⟩ := madvr_frame c src custom po lo c' hc l hl k hk i hi
+  refine ⟨dm0, r, d, g2, g4, by rw [g5], ?_⟩
+  intro x hx
+  rw [g9 x hx, cfgBlocks_beyond c.shots k hcs, cfgEditBlocks_beyond c.shots k i hcs]
+  simp
+
+/-- **C10 (e) for madVR — scene cuts**: the scene-refresh flags of the output are, scene by scene, 1 on the first frame
+and 0 on the others (1 everywhere in long-play mode) -/
+theorem madvr_scene_cuts (c : Config) (src : MadvrSource) (custom : Bool) (po : Option Profile) (lo : Option Bool)
+    (c' : Config) (hc : madvrConfig c src custom = .ok c') (hne : src.scenes ≠ []) (l : List Rpu)
+    (hl : generateList (normalize c' po lo) = .ok l) :
+    l.map flagOf = src.scenes.flatMap fun s => (List.range s.length).map fun i =>
+      some (if i = 0 ∨ lo.getD c.longPlay = true then 1 else 0) := by
+  obtain ⟨rfl, _, _⟩ := madvr_ok c src custom c' hc
+  rw [gen_scene_cuts _ l hl]
+  obtain ⟨_, _, f3, _, _, _, _, _, _, _, f11⟩ := normalize_fields (madvrResult c src custom) po lo
+  rw [f3]
+  have h1 : ∀ (shots : List Shot), (shots.flatMap fun s => (List.range s.duration).map fun i =>
+        some (if i = 0 ∨ lo.getD (madvrResult c src custom).longPlay = true then 1 else 0)) =
+      (shots.map (·.duration)).flatMap fun n => (List.range n).map fun i =>
+        some (if i = 0 ∨ lo.getD c.longPlay = true then 1 else 0) := by
+    intro shots; rw [List.flatMap_map]; rfl
+  rw [h1, f11, madvr_shots_nonempty c src custom hne, List.map_map]
+  have h2 : ((fun (s : Shot) => s.duration) ∘ clampShot (clampMode (madvrResult c src custom))) = fun s => s.duration := rfl
+  rw [h2, madvrShots_durations, List.flatMap_map]
+
+/-- **C10 (d) for madVR — the L6 fill-in**: a config without `level6` stays without; in a config's L6
+`[max_mdl, min_mdl, MaxCLL, MaxFALL]` a `MaxCLL` / `MaxFALL` of 0 is replaced by the low 16 bits of the file's header word
+(`as u16`), a non-zero one is kept; the two mastering-display values are never touched. This `level6` is what reaches
+`generate_rpu_list` (`normalize` does not change it). -/
+theorem madvr_l6 (c : Config) (src : MadvrSource) (custom : Bool) (c' : Config)
+    (hc : madvrConfig c src custom = .ok c') (po : Option Profile) (lo : Option Bool) :
+    (normalize c' po lo).level6 = c'.level6 ∧
+    (c.level6 = none → c'.level6 = none) ∧
+    ∀ a b cll fall, c.level6 = some [a, b, cll, fall] →
+      c'.level6 = some [a, b, if cll = 0 then src.maxcll % 65536 else cll,
+                              if fall = 0 then src.maxfall % 65536 else fall] := by
+  obtain ⟨rfl, _, _⟩ := madvr_ok c src custom c' hc
+  refine ⟨(normalize_fields _ po lo).2.2.2.2.2.2.2.1, ?_, ?_⟩
+  · intro h; show c.level6.map _ = none; rw [h]; rfl
+  · intro a b cll fall h
+    show c.level6.map _ = _
+    rw [h]
+    simp only [Option.map_some, fillL6]
+    by_cases h1 : cll = 0 <;> by_cases h2 : fall = 0 <;> simp [h1, h2]
+
+/-- the rest of the config is handed on unchanged, `length` becomes `frame_count`, and there is one shot per scene
+with the scene's start and length -/
+theorem madvr_config_fields (c : Config) (src : MadvrSource) (custom : Bool) (c' : Config)
+    (hc : madvrConfig c src custom = .ok c') :
+    c'.length = src.frameCount ∧ c'.cmv40 = c.cmv40 ∧ c'.profile = c.profile ∧ c'.longPlay = c.longPlay ∧
+    c'.sourceMinPq = c.sourceMinPq ∧ c'.sourceMaxPq = c.sourceMaxPq ∧ c'.l1AvgCmv40 = c.l1AvgCmv40 ∧
+    c'.level5 = c.level5 ∧ c'.defaults = c.defaults ∧
+    c'.shots.map (fun s => (s.start, s.duration)) = src.scenes.map (fun s => (s.start, s.length)) := by
+  obtain ⟨rfl, _, _⟩ := madvr_ok c src custom c' hc
+  refine ⟨rfl, rfl, rfl, rfl, rfl, rfl, rfl, rfl, rfl, ?_⟩
+  apply List.ext_getElem
+  · simp [madvrResult, madvrShots_length]
+  · intro i h1 h2
+    have hk : i < src.scenes.length := by simpa using h2
+    have hk2 : i < (madvrShots c src custom).length := by rw [madvrShots_length]; exact hk
+    rw [List.getElem_map, List.getElem_map]
+    show ((madvrShots c src custom)[i].start, (madvrShots c src custom)[i].duration) = _
+    rw [madvrShots_getElem c src custom i hk, mergeShot_start, mergeShot_duration]
+    rfl
+
+/-! ## HDR10+ (`parse_hdr10plus_for_l1`) -/
+
+/-- **the outcomes of the HDR10+ step, exactly**: it never returns an error; it panics iff the summary arrays do not
+fit the frames (`HdrFits`: empty `SceneFirstFrameIndex`, an entry below the first one, a visited frame without a peak
+value for the chosen source, fewer `SceneFrameNumbers` than visited frames); otherwise it returns `hdrResult` -/
+theorem hdr_config_outcome (c : Config) (src : HdrSource) :
+    hdr10plusConfig c src ≠ .error ∧
+    (hdr10plusConfig c src = .panic ↔ ¬ ∃ f0, HdrFits src f0) ∧
+    ∀ c', hdr10plusConfig c src = .ok c' → ∃ f0, HdrFits src f0 ∧ c' = hdrResult c src f0 := by
+  rcases hdr10plusConfig_cases c src with ⟨h1, h2⟩ | ⟨f0, h1, h2⟩ <;> rw [h1]
+  · exact ⟨fun h => (by cases h), ⟨fun _ => h2, fun _ => rfl⟩, fun c' h => (by cases h)⟩
+  · refine ⟨fun h => (by cases h), ⟨fun h => (by cases h), fun h => absurd ⟨f0, h2⟩ h⟩, ?_⟩
+    intro c' h; cases h; exact ⟨f0, h2, rfl⟩
+
+/-- **C10 (a) for HDR10+ — frame count**: when `generate --hdr10plus-json` succeeds it wrote exactly one RPU per
+`SceneInfo` entry; the summary arrays fit the frames, and (when a frame is visited at all) the first `m` scene lengths,
+`m` the number of visited first frames, add up to the frame count -/
+theorem hdr_frame_count (c : Config) (src : HdrSource) (po : Option Profile) (lo : Option Bool)
+    (out : List Bytes) (h : generateHdr10plus c src po lo = .ok out) :
+    out.length = src.frames.length ∧ ∃ f0, HdrFits src f0 ∧
+      (hdrFirstFrames src f0 ≠ [] → (src.lengths.take (hdrFirstFrames src f0).length).sum = src.frames.length) := by
+  unfold generateHdr10plus at h
+  obtain ⟨c', hc, hg⟩ := (bind_ok_iff _ _ _).1 h
+  obtain ⟨f0, hfit, rfl⟩ := (hdr_config_outcome c src).2.2 c' hc
+  rw [hdr_generateFrom c src f0 po lo] at hg
+  obtain ⟨g1, g2, g3⟩ := generate_length _ po lo out hg
+  have hlen : (normalize (hdrResult c src f0) po lo).length = src.frames.length := by
+    rw [(normalize_fields _ po lo).2.2.2.1]
+    split
+    · rename_i hh
+      have h0 : src.frames.length = 0 := hh.1
+      have : (hdrResult c src f0).shots.isEmpty = true := by
+        show (hdrShots c src f0).isEmpty = true
+        simp [hdrShots, hdrFirstFrames, h0]
+      rw [this] at hh; cases hh.2
+    · rfl
+  refine ⟨g1.trans hlen, f0, hfit, ?_⟩
+  intro hne
+  rw [← hlen, g2, g3, hdr_shots_nonempty c src f0 hne, durSum_eq_sum, hdrShots_durations c src f0 hfit.2.2.2]
+
+/-- the link to the frame theorems for HDR10+ (see `madvr_output`) -/
+theorem hdr_output (c : Config) (src : HdrSource) (po : Option Profile) (lo : Option Bool)
+    (out : List Bytes) (h : generateHdr10plus c src po lo = .ok out) :
+    ∃ c' l, hdr10plusConfig c src = .ok c' ∧ generateList (normalize c' po lo) = .ok l ∧ writeAll l = .ok out ∧
+      out.length = l.length := by
+  unfold generateHdr10plus at h
+  obtain ⟨c', hc, hg⟩ := (bind_ok_iff _ _ _).1 h
+  obtain ⟨f0, _, rfl⟩ := (hdr_config_outcome c src).2.2 c' hc
+  rw [hdr_generateFrom c src f0 po lo] at hg
+  obtain ⟨_, l, h1, h2⟩ := (generate_ok_iff _ po lo out).1 hg
+  exact ⟨_, l, hc, h1, h2, writeAll_length l out h2⟩
+
+/-- summary arrays that do not fit the frames make the command panic (the real tool aborts: `.expect` on the empty
+array, `usize` subtraction, `.unwrap()` on a missing peak value, index out of range) -/
+theorem hdr_unfit_panics (c : Config) (src : HdrSource) (po : Option Profile) (lo : Option Bool)
+    (h : ¬ ∃ f0, HdrFits src f0) : generateHdr10plus c src po lo = .panic := by
+  unfold generateHdr10plus
+  rw [(hdr_config_outcome c src).2.1.2 h]; rfl
+
+/-- summary arrays that fit: the command never panics; scene lengths that do not add up to the frame count are an error -/
+theorem hdr_fit_no_panic (c : Config) (src : HdrSource) (po : Option Profile) (lo : Option Bool)
+    (f0 : Nat) (hfit : HdrFits src f0) :
+    generateHdr10plus c src po lo ≠ .panic ∧
+    (hdrFirstFrames src f0 ≠ [] → (src.lengths.take (hdrFirstFrames src f0).length).sum ≠ src.frames.length →
+      generateHdr10plus c src po lo = .error) := by
+  have hnp : generateHdr10plus c src po lo ≠ .panic := by
+    intro hg
+    unfold generateHdr10plus at hg
+    rcases hdr10plusConfig_cases c src with ⟨_, h2⟩ | ⟨g0, h1, _⟩
+    · exact h2 ⟨f0, hfit⟩
+    · rw [h1] at hg
+      simp only [Res.bind] at hg
+      rw [hdr_generateFrom c src g0 po lo] at hg
+      exact generate_no_panic _ po lo hg
+  refine ⟨hnp, ?_⟩
+  intro hne hsum
+  cases hg : generateHdr10plus c src po lo with
+  | error => rfl
+  | panic => exact absurd hg hnp
+  | ok out =>
+    obtain ⟨_, g0, hg0, hs⟩ := hdr_frame_count c src po lo out hg
+    have : g0 = f0 := by
+      have a := hg0.1; have b := hfit.1; rw [a] at b; simpa using b
+    subst this
+    exact absurd (hs hne) hsum
+
+/-- **C10 (b), (c), (e) for HDR10+ — one frame**: `k` counts the visited first frames (`hdrFirstFrames`), the `k`-th of
+them being frame `n`; frame `i` of that scene sits at index (first `k` scene lengths) + `i`; its scene-refresh flag is 1
+iff `i = 0` (or long-play); its only L1 block is the clamped (0, max code, avg code) of frame `n` — never the config's;
+every other level follows the precedence config shot `k`'s first edit at `i` (not-L1 blocks), its not-L1 blocks, base -/
+theorem hdr_frame (c : Config) (src : HdrSource) (po : Option Profile) (lo : Option Bool)
+    (c' : Config) (hc : hdr10plusConfig c src = .ok c') (l : List Rpu)
+    (hl : generateList (normalize c' po lo) = .ok l) :
+    ∃ f0, HdrFits src f0 ∧
+    ∀ (k : Nat) (hk : k < (hdrFirstFrames src f0).length) (i : Nat), i < src.lengths.getD k 0 →
+    ∃ base dm0 r d, baseRpu (normalize c' po lo) = .ok base ∧ dmFromConfig (normalize c' po lo) = .ok dm0 ∧ Uniq dm0 ∧
+      l[(src.lengths.take k).sum + i]? = some r ∧ r = { base with vdr_dm_data := some d } ∧ Uniq d ∧
+      d.scene_refresh_flag = (if i = 0 ∨ lo.getD c.longPlay = true then 1 else 0) ∧
+      d.levelBlocks 1 =
+        [l1Block (clampMode c) ((src.frames.getD (hdrFirstFrames src f0)[k] none).getD (0, 0)).1
+                               ((src.frames.getD (hdrFirstFrames src f0)[k] none).getD (0, 0)).2] ∧
+      ∀ x : Block, x.level ≠ 1 → (x ∈ d.levelBlocks x.level ↔
+        (holds dm0 x.level ∧ (cfgEditBlocks c.shots k i).reverse.find? (sameKey x) = some x) ∨
+        ((cfgEditBlocks c.shots k i).all (fun b => !sameKey b x) = true ∧ holds dm0 x.level ∧
+          (cfgBlocks c.shots k).reverse.find? (sameKey x) = some x) ∨
+        ((cfgEditBlocks c.shots k i).all (fun b => !sameKey b x) = true ∧
+          (cfgBlocks c.shots k).all (fun b => !sameKey b x) = true ∧ x ∈ dm0.levelBlocks x.level)) := by
+  obtain ⟨f0, hfit, rfl⟩ := (hdr_config_outcome c src).2.2 c' hc
+  refine ⟨f0, hfit, ?_⟩
+  intro k hk i hi
+  have hk' : k < (hdrResult c src f0).shots.length := by
+    show k < (hdrShots c src f0).length
+    rw [hdrShots_length]; exact hk
+  have hs := hdrShots_getElem c src f0 k hk
+  have hgetD : (hdrFirstFrames src f0).getD k 0 = (hdrFirstFrames src f0)[k] := by
+    rw [List.getD_eq_getElem?_getD, List.getElem?_eq_getElem hk]; rfl
+  obtain ⟨base, dm0, r, d, g1, g2, g3, g4, g5, g6, g7, g8, g9⟩ :=
+    source_frame (hdrResult c src f0) po lo l hl c.shots k hk' _ hs
+      _ rfl (l1Block_level _ _ _) (clamp_l1Block _ _ _)
+      (fun _ => none) (fun _ => rfl) (fun _ _ h => (by cases h)) i hi
+  have hstart : (((hdrResult c src f0).shots.take k).map (·.duration)).sum = (src.lengths.take k).sum := by
+    rw [List.map_take]
+    show (((hdrShots c src f0).map (·.duration)).take k).sum = _
+    rw [hdrShots_durations c src f0 hfit.2.2.2, List.take_take]
+    congr 2
+    omega
+  rw [hstart] at g4
+  refine ⟨base, dm0, r, d, g1, g2, g3, g4, g5, g6, (shell_fields g7).2.2.2.2.1, ?_, g9⟩
+  rw [g8, hgetD]
+  rfl
+
+/-- **C10 (e) for HDR10+ — scene cuts**: scene by scene (the first `m` scene lengths), 1 on the first frame and 0 on the
+others (1 everywhere in long-play mode) -/
+theorem hdr_scene_cuts (c : Config) (src : HdrSource) (po : Option Profile) (lo : Option Bool)
+    (c' : Config) (hc : hdr10plusConfig c src = .ok c') (l : List Rpu)
+    (hl : generateList (normalize c' po lo) = .ok l) :
+    ∃ f0, HdrFits src f0 ∧ (hdrFirstFrames src f0 ≠ [] →
+      l.map flagOf = (src.lengths.take (hdrFirstFrames src f0).length).flatMap fun n => (List.range n).map fun i =>
+        some (if i = 0 ∨ lo.getD c.longPlay = true then 1 else 0)) := by
+  obtain ⟨f0, hfit, rfl⟩ := (hdr_config_outcome c src).2.2 c' hc
+  refine ⟨f0, hfit, ?_⟩
+  intro hne
+  rw [gen_scene_cuts _ l hl]
+  obtain ⟨_, _, f3, _, _, _, _, _, _, _, f11⟩ := normalize_fields (hdrResult c src f0) po lo
+  rw [f3]
+  have h1 : ∀ (shots : List Shot), (shots.flatMap fun s => (List.range s.duration).map fun i =>
+        some (if i = 0 ∨ lo.getD (hdrResult c src f0).longPlay = true then 1 else 0)) =
+      (shots.map (·.duration)).flatMap fun n => (List.range n).map fun i =>
+        some (if i = 0 ∨ lo.getD c.longPlay = true then 1 else 0) := by
+    intro shots; rw [List.flatMap_map]; rfl
+  rw [h1, f11, hdr_shots_nonempty c src f0 hne, List.map_map]
+  have h2 : ((fun (s : Shot) => s.duration) ∘ clampShot (clampMode (hdrResult c src f0))) = fun s => s.duration := rfl
+  rw [h2, hdrShots_durations c src f0 hfit.2.2.2]
+
+/-! ## non-vacuity for the source paths: concrete sources satisfying the hypotheses, and what the theorems say -/
+
+def l1v (a b c : Int) : Block := { level := 1, length := 5, vals := [a, b, c] }
+
+/-- a config with one shot: an L2 for target 2081 and an L1 (must be dropped); frame edits at offset 1 (L2 and L1), a second
+one at offset 1 (never applies), one beyond the scene; L6 with MaxCLL 0 (filled in) and MaxFALL 400 (kept) -/
+def mvCfg : Config :=
+  { level6 := some [1000, 1, 0, 400],
+    shots := [{ blocks := [l2 2081 2, l1v 0 3000 1500],
+                edits := [{ offset := 1, blocks := [l2 2081 3, l1v 0 3500 1600] }, { offset := 1, blocks := [l2 2081 4] },
+                          { offset := 7, blocks := [l2 2081 5] }] }] }
+
+/-- a flags-3 measurement: 5 frames, scenes 0..2 and 3..4; the second scene's peak code is above 4095 (12000 nits), the
+first scene's average below the CM v4.0 floor; MaxCLL 70000 does not fit 16 bits -/
+def mvSrc : MadvrSource :=
+  { flags := 3, maxcll := 70000, maxfall := 120, frameCount := 5,
+    scenes := [{ start := 0, endRaw := 3, maxCode := 3079, avgCode := 100 },
+               { start := 3, endRaw := 5, maxCode := 4200, avgCode := 2000 }],
+    targets := [2081, 2500, 3000, 3500, 4000] }
+
+/-- the hypotheses of `madvr_frame`, `madvr_scene_cuts`, `madvr_l6`, … are satisfiable, with and without custom targets -/
+example : ∃ c' l, madvrConfig mvCfg mvSrc true = .ok c' ∧ generateList (normalize c' none none) = .ok l := ⟨_, _, rfl, rfl⟩
+example : ∃ c' l, madvrConfig mvCfg mvSrc false = .ok c' ∧ generateList (normalize c' none none) = .ok l := ⟨_, _, rfl, rfl⟩
+example : ScenesDefined mvSrc ∧ ScenesInRange mvSrc ∧ mvSrc.scenes ≠ [] := by
+  refine ⟨?_, ?_, by decide⟩ <;> (intro s hs; simp [mvSrc] at hs; rcases hs with rfl | rfl <;> decide)
+/-- … and so is the hypothesis of `madvr_frame_count`: 5 RPUs -/
+example : ∃ out, generateMadvr mvCfg mvSrc true none none = .ok out ∧ out.length = 5 := ⟨_, rfl, rfl⟩
+
+/-- per frame of the source path's output: scene-refresh flag and the blocks of one level -/
+def viewMadvr (c : Config) (src : MadvrSource) (custom : Bool) (lv : Nat) : Option (List (Option Nat × List Block)) :=
+  match madvrConfig c src custom with
+  | .ok c' => view (normalize c' none none) lv
+  | _ => none
+
+/-- (b), (e) without custom targets: cuts at frames 0 and 3; every frame of a scene carries the scene's clamped L1
+(average 100 raised to 1229, peak 4200 cut to 4095) — not the config's L1 blocks -/
+example : viewMadvr mvCfg mvSrc false 1 =
+    some [(some 1, [l1v 0 3079 1229]), (some 0, [l1v 0 3079 1229]), (some 0, [l1v 0 3079 1229]),
+          (some 1, [l1v 0 4095 2000]), (some 0, [l1v 0 4095 2000])] := by decide
+/-- (b) with custom targets: frame `i` of a scene carries the clamped target of frame `start + i` and the scene's average -/
+example : viewMadvr mvCfg mvSrc true 1 =
+    some [(some 1, [l1v 0 2081 1229]), (some 0, [l1v 0 2500 1229]), (some 0, [l1v 0 3000 1229]),
+          (some 1, [l1v 0 3500 2000]), (some 0, [l1v 0 4000 2000])] := by decide
+/-- (c): the config shot's L2 on the frames of scene 0, its FIRST edit at offset 1 on frame 1 (merged into the custom edit
+or added), nothing on scene 1 (the config has no second shot) -/
+example : viewMadvr mvCfg mvSrc true 2 =
+    some [(some 1, [l2 2081 2]), (some 0, [l2 2081 3]), (some 0, [l2 2081 2]), (some 1, []), (some 0, [])] := by decide
+example : viewMadvr mvCfg mvSrc false 2 = viewMadvr mvCfg mvSrc true 2 := by decide
+/-- (d): MaxCLL 0 is filled in with 70000 mod 65536, MaxFALL 400 is kept -/
+example : viewMadvr mvCfg mvSrc false 6 =
+    some (List.replicate 5 (some 0, [{ level := 6, length := 8, vals := [1000, 1, 4464, 400] }])
+      |>.set 0 (some 1, [{ level := 6, length := 8, vals := [1000, 1, 4464, 400] }])
+      |>.set 3 (some 1, [{ level := 6, length := 8, vals := [1000, 1, 4464, 400] }])) := by decide
+/-- `copy_metadata_from_shot` on the example: the L1 of the override is dropped, its first offset-1 edit is merged into the
+existing custom edit, its second offset-1 edit is not added (the offset exists), the offset-7 edit is added -/
+example : (copyMetadataFromShot
+      { blocks := [l1v 0 3079 1229], edits := [{ offset := 0, blocks := [l1v 0 1 1] }, { offset := 1, blocks := [l1v 0 2 2] }] }
+      (mvCfg.shots.getD 0 {}) (some [1])) =
+    ({ blocks := [l1v 0 3079 1229, l2 2081 2],
+       edits := [{ offset := 0, blocks := [l1v 0 1 1] }, { offset := 1, blocks := [l1v 0 2 2, l2 2081 3] },
+                 { offset := 7, blocks := [l2 2081 5] }] } : Shot) := rfl
+/-- the error / panic cases: scenes not tiling the frames (6 frames), a scene beyond the frames, an end word of 0, an end
+before the start -/
+example : generateMadvr mvCfg { mvSrc with frameCount := 6 } false none none = .error := by decide
+example : generateMadvr mvCfg { mvSrc with frameCount := 4 } false none none = .error := by decide
+example : generateMadvr mvCfg { mvSrc with scenes := [{ start := 0, endRaw := 0, maxCode := 0, avgCode := 0 }] } false none none
+    = .panic := by decide
+example : generateMadvr mvCfg { mvSrc with scenes := [{ start := 3, endRaw := 3, maxCode := 0, avgCode := 0 }] } false none none
+    = .panic := by decide
+/-- no scene at all: one default shot of `frame_count` frames without any L1 -/
+example : viewMadvr mvCfg { mvSrc with scenes := [] } false 1 =
+    some [(some 1, []), (some 0, []), (some 0, []), (some 0, []), (some 0, [])] := by decide
+
+/-- HDR10+: first-frame indices 5 and 7 (rebased to 0 and 2), scene lengths 2 and 1, three frames -/
+def hdrSrc : HdrSource :=
+  { firsts := [5, 7], lengths := [2, 1], frames := [some (3000, 1500), some (1, 1), some (2500, 900)] }
+
+example : HdrFits hdrSrc 5 ∧ hdrFirstFrames hdrSrc 5 = [0, 2] := by
+  refine ⟨⟨rfl, by decide, by decide, by decide⟩, by decide⟩
+example : ∃ c' l, hdr10plusConfig mvCfg hdrSrc = .ok c' ∧ generateList (normalize c' none none) = .ok l := ⟨_, _, rfl, rfl⟩
+example : ∃ out, generateHdr10plus mvCfg hdrSrc none none = .ok out ∧ out.length = 3 := ⟨_, rfl, rfl⟩
+
+def viewHdr (c : Config) (src : HdrSource) (lv : Nat) : Option (List (Option Nat × List Block)) :=
+  match hdr10plusConfig c src with
+  | .ok c' => view (normalize c' none none) lv
+  | _ => none
+
+/-- L1 of the scene's first frame on every frame of the scene; cuts at the scene starts; the config shot's L2 and its first
+offset-1 edit on scene 0 -/
+example : viewHdr mvCfg hdrSrc 1 =
+    some [(some 1, [l1v 0 3000 1500]), (some 0, [l1v 0 3000 1500]), (some 1, [l1v 0 2500 1229])] := by decide
+example : viewHdr mvCfg hdrSrc 2 = some [(some 1, [l2 2081 2]), (some 0, [l2 2081 3]), (some 1, [])] := by decide
+/-- the panics: empty first-frame list, an entry below the first, a missing scene length, a first frame without peak
+value; and the error: scene lengths not adding up -/
+example : generateHdr10plus mvCfg { hdrSrc with firsts := [] } none none = .panic := by decide
+example : generateHdr10plus mvCfg { hdrSrc with firsts := [5, 3] } none none = .panic := by decide
+example : generateHdr10plus mvCfg { hdrSrc with lengths := [2] } none none = .panic := by decide
+example : generateHdr10plus mvCfg { hdrSrc with frames := [some (3000, 1500), some (1, 1), none] } none none = .panic := by
+  decide
+example : generateHdr10plus mvCfg { hdrSrc with lengths := [2, 2] } none none = .error := by decide
 
 end Dovi.C10
